@@ -274,9 +274,18 @@ def _parse_npath(npath: str) -> list[_NPathSegment]:
     return segments
 
 
+_NIX_KEYWORDS = frozenset(
+    {"assert", "else", "if", "in", "inherit", "let", "rec", "then", "with"}
+)
+
+
 def _format_attr_name(segment: _NPathSegment) -> str:
     """Format a segment as a binding name, quoting when needed."""
-    if segment.quoted or not _NPATH_IDENTIFIER_RE.match(segment.name):
+    if (
+        segment.quoted
+        or not _NPATH_IDENTIFIER_RE.match(segment.name)
+        or segment.name in _NIX_KEYWORDS
+    ):
         escaped = _escape_nix_string(segment.name, escape_interpolation=True)
         return f'"{escaped}"'
     return segment.name
